@@ -350,4 +350,22 @@ pub fn run(ctx: &mut Ctx) {
             }
         }
     }
+    // what a block leaves — and what a constant holds — is inlined as the value it is, TAGS INCLUDED: the program with the
+    // block replaced by the expression that computes its value prints the same and leaves the same tags (numbers in and
+    // beyond the 64-bit range, texts, nil, vectors; formatting tags and user tags; constants defined in a block)
+    for (inner, probe) in [("255 ^hex", "dup print tags"), ("255 ^hex", "tags"), ("\"k\" \"v\" \"doc\" insert-tag", "\"doc\" get-tag"), ("nil 1 \"t\" insert-tag", "tags"),
+        ("18446744073709551616 ^hex", "dup print tags"), ("[ 1 2 ] 3 \"n\" insert-tag", "tags"), ("1.5 2 \"r\" insert-tag", "tags"), ("7 ^bin true fmt/prefix", "dup print tags"), ("-9 1 \"a\" insert-tag 2 \"b\" insert-tag", "tags")] {
+        let run1 = |src: String| -> String {
+            let mut xs = fresh();
+            let r = crate::guarded(|| xs.eval(&src));
+            format!("{:?} stack=[{}] out={:?}", r.map(|r| r.map_err(|e| canon::err(&e))), canon::stack(&xs).iter().map(canon::cell).collect::<Vec<_>>().join(" "), xs.stdout().cloned().unwrap_or_default())
+        };
+        let plain = run1(format!("{} {}", inner, probe));
+        let block = run1(format!("#( {} #) {}", inner, probe));
+        let konst = run1(format!("#( {} const kt #) kt {}", inner, probe));
+        let in_def = run1(format!(": w #( {} #) ; w {}", inner, probe));
+        ctx.check(plain == block && plain == konst && plain == in_def, || format!("C11 `{}` then `{}`: written out, as a block, as a constant defined in a block, as a block inside a definition", inner, probe),
+            || plain.clone(), || format!("block: {} // constant: {} // in a definition: {}", block, konst, in_def));
+        ctx.tag("inlined-values-keep-their-tags");
+    }
 }
